@@ -9,7 +9,7 @@ PROP = "C11"
 
 VALUE_POOL = schemagen.ENUM_VALUES + ["A", "a_b", "a-b", "AB", "aB", "Ab", " lead", "trail ", "with\ttab", "quote\"d",
                                       "back\\slash", "{brace}", "%", "{}", "{0}", "ünï", "ÄB", "ß", "ſ", "İ", "null", "true",
-                                      "0", "-"]
+                                      "0", "-", "", " ", "X", "x", "_", "é"]
 
 
 def gen_doc(r):
